@@ -10,39 +10,12 @@ import Vita.C07.Gen
 namespace Vita.C07
 open Vita.Rng
 
-/-- the save format for which the round trip is proved -/
-def goodItems : List Item := [.st 0, .ch ' ', .st 1, .ch ' ', .st 2, .ch ' ', .st 3]
-def goodIdx : List Nat := [0, 1, 2, 3]
-
 /-- The code, today, writes the four state words separated by blanks … -/
 theorem gen_write : Gen.writeItems = goodItems := by decide
 /-- … and reads into exactly the same four words, in the same order … -/
 theorem gen_read : Gen.readIdx = goodIdx := by decide
 /-- … of a four-word state. -/
 theorem gen_size : Gen.stateSize = 4 := by decide
-
-/-- text written for a state -/
-theorem writeState_good (a : Xo) :
-    writeState goodItems a =
-      some (writeU64 a.s0 ++ ' ' :: (writeU64 a.s1 ++ ' ' :: (writeU64 a.s2 ++ ' ' :: (writeU64 a.s3 ++ [])))) := by
-  simp [writeState, goodItems, Xo.get]
-
-/-- Round trip for the proved format: whatever the receiving engine `b` held, after reading the text
-    written for `a` the stream is still good and the engine equals `a`. -/
-theorem roundtrip_good (a b : Xo) : saveRestore goodItems goodIdx a b = some (a, true) := by
-  unfold saveRestore
-  rw [writeState_good]
-  simp only [goodIdx, readState, Bool.false_eq_true, ↓reduceIte,
-    show (0 : Nat) < 4 by decide, show (1 : Nat) < 4 by decide, show (2 : Nat) < 4 by decide,
-    show (3 : Nat) < 4 by decide]
-  rw [extract_writeU64 _ _ (stops_space _)]
-  simp only [extract_space]
-  rw [extract_writeU64 _ _ (stops_space _)]
-  simp only [extract_space]
-  rw [extract_writeU64 _ _ (stops_space _)]
-  simp only [extract_space]
-  rw [extract_writeU64 _ _ (Or.inl rfl)]
-  simp [Xo.set]
 
 /-- **state_roundtrip**: a generator state written with the code's `operator<<` and read back with
     the code's `operator>>` (into any engine) is restored exactly, and the stream stays good –
